@@ -253,8 +253,57 @@ def pipeline_cases(ctx, n):
                           f"(the crop must not change ASSD)", inp, impl=got, model=want, key={"kind": "assd-embedding"})
 
 
+def sibling_metrics_corpus(ctx):
+    """ASSD evaluated after other metrics on the same instance masks (centre-line Dice, Dice, IoU, RVD before it in the metric list; and
+    direct calls one after the other on the caller's boolean masks): ASSD is a function of the two masks it is given"""
+    import evalutil as E
+    scenes = []
+    ref = np.zeros((6, 9, 9), np.uint8)
+    pred = np.zeros_like(ref)
+    ref[1:5, 1:5, 1:5], pred[1:5, 1:5, 2:6] = 1, 1
+    ref[1:4, 6:8, 5:8], pred[2:5, 6:8, 5:8] = 2, 2
+    scenes.append((ref, pred, [1, 2]))
+    ref2 = np.zeros((9, 12), np.uint8)
+    pred2 = np.zeros_like(ref2)
+    ref2[2:7, 2:9], pred2[3:8, 3:10] = 1, 1
+    scenes.append((ref2, pred2, [1]))
+    for ref, pred, labs in scenes:
+        for mlist in (["DSC", "clDSC", "ASSD"], ["clDSC", "ASSD"], ["ASSD", "clDSC"], ["IOU", "RVD", "DSC", "ASSD"], ["clDSC", "IOU", "ASSD", "DSC"]):
+            cfg = E.mk_cfg("MATCHED", mlist)
+            res = E.run_impl(cfg, pred, ref)
+            inp = {"shape": list(ref.shape), "dtype": "uint8", "ref": gen.arr_json(ref), "pred": gen.arr_json(pred), "sel": None, "pipeline": True,
+                   "metrics": mlist, "src": "corpus.sibling-metrics"}
+            ctx.case(inp, True)
+            ctx.count("assd_after_sibling_metrics")
+            if isinstance(res, str):
+                ctx.violation(f"evaluation with metrics {mlist} raised {res}", inp, key={"kind": "raises"})
+                continue
+            got = res["ungrouped"]["list_ASSD"]
+            want = sorted(oracle.assd_brute(ref == l, pred == l) for l in labs)
+            if isinstance(got, str) or len(got) != len(want) or any(not close(a, b) for a, b in zip(sorted(got), want)):
+                ctx.violation(f"per-instance ASSD with the metric list {mlist} is {got}, the definition on the instance masks gives {want}", inp, impl=got, model=want,
+                              key={"kind": "assd-embedding"})
+        # direct calls on the caller's masks
+        for l in labs:
+            r, p = (ref == l), (pred == l)
+            rb, pb = r.tobytes(), p.tobytes()
+            with quiet(), np.errstate(all="ignore"):
+                for other in ("clDSC", "DSC", "IOU"):
+                    try:
+                        impl.METRICS[other](r, p)
+                    except Exception:
+                        pass
+            inp = {"shape": list(ref.shape), "ref": gen.arr_json(r.astype(np.uint8)), "pred": gen.arr_json(p.astype(np.uint8)), "sel": None, "src": "corpus.sibling-metrics.direct"}
+            ctx.case(inp, True)
+            if r.tobytes() != rb or p.tobytes() != pb:
+                ctx.violation("a metric called on the caller's boolean masks changed them (ASSD computed afterwards sees other masks)", inp, key={"kind": "assd-value"})
+                continue
+            one_case(ctx, r.astype(np.uint8), p.astype(np.uint8), "corpus.sibling-metrics.direct")
+
+
 def run(ctx):
     corpus(ctx)
+    sibling_metrics_corpus(ctx)
     same_bytes_corpus(ctx)
     inplace_history_corpus(ctx)
     very_far(ctx, ctx.scale(2, 8))
